@@ -214,6 +214,7 @@ class MCSRules(LockModel):
             res = self.paths(fn)
             paths = res['paths']
             fn['_feasible_paths'] = paths
+            self.mask_check(fn, paths)
             for p in paths:
                 for e in p.events:
                     if e['kind'] == 'atomic':
@@ -522,6 +523,7 @@ class MCSRules(LockModel):
             if e['kind'] == 'atomic' and e['op'] == 'load' and e['seq'] > arr['seq'] and e.get('result') is not None:
                 cands.append((e, e['result']))
         cert = None
+        wrong_obj = None
         und_any = False
         for e, sym in reversed(cands):
             k = ctx.kind(e['obj'])
@@ -541,8 +543,15 @@ class MCSRules(LockModel):
             if n and ok_all and k in ('LOCK', 'VIA_LOCK_NEXT'):
                 cert = (e, k)
                 break
+            if n and ok_all and e is cands[-1][0] and e is not arr:
+                wrong_obj = (e, k)     # the last read before the grant certifies X = SIX = 0, but of another object
         key = '%s (join) granted only after X and SIX of the joined group are certified clear' % name
-        if cert is None:
+        if cert is None and wrong_obj is not None:
+            self.sink.bad('MCS.WAIT', key, '%s:%s' % (fn['file'], wrong_obj[0]['line']),
+                          'the read the grant waits on certifies X=0 and SIX=0 of %s (%s), which is neither the lock word while the group is the tail nor the '
+                          'successor\'s node: the flags a joiner has to wait for are kept there' % (show(wrong_obj[0]['obj'])[:50], wrong_obj[1]))
+            return
+        elif cert is None:
             (self.sink.unsup if und_any else self.sink.bad)('MCS.WAIT', key, '%s:%s' % (fn['file'], p.ret_line),
                                                             'no read on the path certifies X=0 and SIX=0 for the joined group (the head\'s UpgradeToX does not wait for joiners of its own group)')
             return
